@@ -84,6 +84,34 @@ SHADOWS = [
 ]
 
 
+ERROR_SHAPES = [
+    # constructs that are left through an error / early exit while a temporary context is on the scope
+    "{a: 1, c: 3, a: 2}", '{a: 1, b: 2, "a": 3}', '{"a": 1, b: a, "a": 3}.b', "{x: {a: 1, a: 2}, y: na}", "[{a: 1, a: 2}, na]", "for x in [1, 2] return {k: x, k: x + 1}",
+    "(function(p, q) p)(p: 1, p: 2)", "(function(p, q) p)(r: 1)", "(function(p, q) p)(1, 2, 3)", "(function(p: number) p)(\"s\")", "(function(p) {a: p, a: 2})(1)", "fa(1, 2, 3, 4)", "fa(zz: 1)",
+    "for x in 1 return x", "for x in [1, 2], y in x return y", "for x in [1, 2] return x.nosuch.deeper", "some x in [1, 2] satisfies x + \"a\"", "every x in [1, 2] satisfies null", "some x in null satisfies true",
+    "[1, 2, 3][item > \"a\"]", "[1, 2, 3][item.nosuch]", "[{a: 1}, {a: 2}][a + \"x\"]", "[{a: 1}, 2, {a: 3}][a > 1]", "[[1, 2], [3]][item[5] > 1]", "{a: 1}[a > \"x\"]",
+    "if 1 then {a: 1, a: 2} else na", "{a: [1, 2][item > 1], b: a[5].x, c: b + 1}", "{f: function(x) {k: x, k: 2}, r: f(1), s: na}.s", "{a: 1, b: (function(a) {a: a, a: 1})(2), c: a}.c",
+    "sort([3, 1, 2], function(x, y) {k: 1, k: 2})", "sort([3, 1, 2], function(x, y) x + \"a\")", "for x in [1, 2] return (function(x) {x: x, x: 1})(x)",
+]
+
+
+def error_texts(rng, n):
+    out = []
+    for _ in range(n):
+        t = rng.choice(ERROR_SHAPES)
+        w = rng.randrange(5)
+        if w == 0:
+            t = "[%s, na]" % t
+        elif w == 1:
+            t = "{a: %s, b: na}" % t
+        elif w == 2:
+            t = "for z in [1, 2] return %s" % t
+        elif w == 3:
+            t = "(function(na) %s)(5)" % t
+        out.append(t)
+    return out
+
+
 def layered_scope(rng):
     g = gfeel.Gen(rng)
     frames = g.scope()
@@ -98,14 +126,14 @@ def run(rep, tier, seed):
     n_hist = 150 if tier == "quick" else 12000
     n_models = 300 if tier == "quick" else 20000
     rep.rule = (
-        "%d expressions forced through constructs that push temporary contexts (context literals, filters, for/some/every, invocations, unary tests) plus a quarter as many filters over lists whose context elements carry entries named `item`, like variables in use or like names of the caller's scope, and the repository's own test and model expressions (unmutated), each parsed and evaluated 3x in scopes of 1-4 layers with the "
+        "%d expressions forced through constructs that push temporary contexts (context literals, filters, for/some/every, invocations, unary tests) plus an eighth as many constructs that are left through an error or early exit (repeated context keys, wrong arity / unknown or repeated named arguments, non-list domains, non-boolean conditions, failing ordering functions) and a quarter as many filters over lists whose context elements carry entries named `item`, like variables in use or like names of the caller's scope, and the repository's own test and model expressions (unmutated), each parsed and evaluated 3x in scopes of 1-4 layers with the "
         "scope rendered before/after; %d histories of 200-2000 steps over 8 prepared evaluators x 4 long-lived scopes; successful parses through all six entry points; %d generated DMN models (boxed contexts, "
         "invocations, BKMs, services, tables) with every (invocable, input) pair called 3x interleaved in random order and once more on an evaluator built for that call alone; the repository's own example models (every invocable, three input contexts, each call repeated in random order and once alone); decision tables recognised from drawings evaluated twice over a caller's scope that holds more than their inputs. Distinct = (text | history | model call); non-trivial = evaluation produced a non-null value." % (n_expr, n_hist, n_models)
     )
     rep.assumptions = ["the scope's textual rendering (Display of the stack of contexts) is a faithful witness of its contents", "values depending on the current date (times of day in named zones) are not generated"]
     rng = rng_for(seed, "c13")
     # ---- 1. expressions: snapshot monitor -------------------------------------------------
-    texts = gen_texts(rng, n_expr) + special_texts(rng, n_expr // 4)
+    texts = gen_texts(rng, n_expr) + special_texts(rng, n_expr // 4) + error_texts(rng, n_expr // 8)
     # the repository's own expressions (string literals of its FEEL tests, <text> of its models), unmutated: every
     # built-in and construct the authors exercised, here under the scope and repeatability monitors. Texts that read the
     # clock or iterate beyond the property's bound are left out.
@@ -164,7 +192,7 @@ def run(rep, tier, seed):
     for h in range(n_hist):
         evs = []
         pscope = layered_scope(rng)
-        for t in gen_texts(rng, 6) + special_texts(rng, 2):
+        for t in gen_texts(rng, 6) + special_texts(rng, 2) + error_texts(rng, 2):
             evs.append({"entry": "expr", "text": t, "scope": pscope})
         scopes = [layered_scope(rng) for _ in range(4)]
         # names of built-in functions: unbound in two of the scopes (the built-in applies), bound to a user-defined
